@@ -6,7 +6,8 @@ use proptest::prelude::*;
 
 pub const TOPICS: &[&str] = &["a", "a/b", "a/c", "b", "b/c", "a/b/c", "é/x", "$SYS/x"];
 pub const FILTERS: &[&str] = &["a", "a/b", "a/+", "a/#", "#", "+/b", "+", "b/#", "é/+", "a/b/c", "+/+"];
-/// one filter per share name (a share name used with two different filters is region R14)
+/// one filter per share name and disjoint filters per group (a forward then names its group;
+/// a share name with two filters is exercised by C17's focused campaign since R14 was repaired)
 pub const GROUP_FILTERS: &[&str] = &["$share/g1/a/#", "$share/g2/b/#"];
 
 #[derive(Clone, Debug)]
